@@ -8,8 +8,9 @@ spec/MultiEventX.tla      the contract over observable events: every public call
                           that makes the MultiEvent set (or by queue() itself), an action that raises drops the rest.
 spec/MultiEventXCode.tla  the file line by line (one step per source line, lock, threading.Event flag, set iteration
                           that raises when the set changes size, attributes that raise until assigned) with switches
-                          "as it stands" / "repaired"; TLC: the repaired design satisfies the statements (safety and,
-                          under fairness, termination), every single switch set back violates the one it is needed for.
+                          "as it stood" / "repaired" (repairs b07a78a, 520ac94, cc1957e, model-checked first); TLC: the
+                          repaired design satisfies the statements (safety and, under fairness, termination), every
+                          single switch set back violates the one it is needed for.
 Binding:
   spec -> code  every behaviour of Gen_MultiEventX (a driver thread making complete calls, up to two threads blocked in
                 wait(), clock ticks) is replayed on the REAL MultiEvent under the deterministic scheduler (virtual
@@ -20,8 +21,8 @@ Binding:
                 pattern, creation while waiting, queue() racing with the last set, re-use after clear, time-outs,
                 triggers fired twice) + random scripts; every execution is recorded (begin / return of each call with
                 virtual time, actions run, threads blocked for ever) and TLC searches the effect points
-                (Trace_MultiEventX).  A trace that needs a named deviation (Dev_*) is a violation unless an open
-                finding carries that deviation.
+                (Trace_MultiEventX).  A trace that needs a named deviation (Dev_*: what the code did before the
+                repairs) is a violation unless an open finding carries that deviation.
 Python concretises, schedules and projects; the verdicts are TLC's.
 """
 import json
@@ -43,7 +44,7 @@ META = {
             'twice, set() / clear() of the MultiEvent itself refused; the repaired design holds, each repair switch '
             'set back (and a lock-less mutation) must fail; behaviours of this model, projected to observable events, '
             'are judged by the observable contract (repaired: accepted as they are; as it stands: exactly the named '
-            'deviations). '
+            'deviations of the code before the repairs b07a78a / 520ac94 / cc1957e). '
             'Every behaviour of Gen_MultiEventX to the depth bound is replayed on the real class (driver + blocked '
             'waiters under a deterministic scheduler, virtual time) with results and projected state compared after '
             'each step; executions of the real class with 2-4 threads under all schedules with bounded preemptions '
@@ -450,7 +451,7 @@ SCEN = {
     'slow_action': _sc(None, {'a1': 'slow'}, main=[('new', 'e1', None, None), ('queue', 'a1'), ('spawn', ['a', 'b', 'w1'])],
                        a=[('set', 'e1')], b=[('sleep', 1), ('new', 'e2', 5, None), ('set', 'e2')], w1=[('wait', None)]),
 }
-# which deviation of the pinned code the design model predicts for which scenario (MC_MultiEventXCode_asimpl_*)
+# which deviation the design model of the unrepaired code predicts for which scenario (MC_MultiEventXCode_asimpl_*)
 PREDICTED = {'Dev_IterRace': 'server', 'Dev_SpuriousTimeout': 'server', 'Dev_HalfCreated': 'new_race',
              'Dev_TrueBeforeActions': 'queue_race', 'Dev_IsSetInverted': 'reuse'}
 
@@ -757,9 +758,9 @@ def model_conformance(chk, names, outs):
         for d in (v[1] if v else ()):
             seen[d] = seen.get(d, 0) + 1
     if not set(seen) <= MODEL_DEVS or not seen:
-        raise MachineryError(f'deviations needed by the model of the code as it stands: {seen}')
+        raise MachineryError(f'deviations needed by the model of the unrepaired code: {seen}')
     chk.notes['design_model_behaviours_judged_by_contract'] = len(traces)
-    chk.notes['deviations_needed_by_the_model_of_the_pinned_code'] = seen
+    chk.notes['deviations_needed_by_the_model_of_the_unrepaired_code'] = seen
 
 
 # ------------------------------------------------------------------ the check
